@@ -1831,6 +1831,8 @@ impl Fsm {
                 }
             }
         }
+        // A terminated session discards its undelivered delayed events (dropping a guard cancels the schedule).
+        get_global!(datamodel).delayed_send.clear();
     }
 
     /// *W3C says*:
